@@ -29,6 +29,18 @@ OPS = [
     ("src_dest", r"\bsrc\b", "dest"), ("dest_src", r"\bdest\b", "src"),
     ("index_len", r"\bindex\b", "len"), ("split_mut", r"split_at_mut\(([^()]*)\)", r"split_at_mut(\1 + 1)"),
     ("not_drop", r"!", ""),
+    # second family: direction flips, off-by-one deletions, compound assignments, reversed / inclusive ranges, literals
+    ("lt_gt", r"(?<![<>=!\-])<(?![<>=])(?= )", ">"), ("gt_lt", r"(?<![<>=\-])>(?![<>=])(?= )", "<"), ("le_ge", r"<=", ">="), ("ge_le", r">=", "<="),
+    ("p1_del", r" \+ 1\b", ""), ("m1_del", r" - 1\b", ""), ("p1_m1", r" \+ 1\b", " - 1"), ("m1_p1", r" - 1\b", " + 1"),
+    ("pe_me", r" \+= ", " -= "), ("me_pe", r" -= ", " += "),
+    ("rev_del", r"\.rev\(\)", ""), ("rng_incl", r"(?<=[\w)])\.\.(?=[\w(])", "..="),
+    ("true_false", r"\btrue\b", "false"), ("false_true", r"\bfalse\b", "true"),
+    ("min_max", r"\bmin\(", "max("), ("max_min", r"\bmax\(", "min("),
+    ("some_none", r"\bSome\(([^()]*)\)(?=\s*$|\s*[,}])", "None"),
+    ("cols_stride", r"\bself\.num_cols\b", "self.stride"),
+    ("swap2", r"\((\w+(?:\.\d)?), (\w+(?:\.\d)?)\)(?=;| \{|\))", r"(\2, \1)"),
+    ("unwrap_or0", r"\.overflowing_mul\(", ".overflowing_add("),
+    ("len_cap", r"\.len\(\)", ".capacity()"),
     ("del_stmt", r"^(\s+)(?!let |//|return|break|continue|pub |fn |use |impl |#|\}|\{)([^\n]*;)\s*$", r"\1{ }"),
 ]
 
